@@ -15,7 +15,9 @@ inductive LoopEv where
       -- finds an unfulfilled task that failed with all peers ("state node … failed with all peers")
   | cancel                                   -- `<-s.cancel` / `<-s.d.cancelCh`
   | wake                                     -- `<-newPeer`: nothing but another `assignTasks`
-  | flush                                    -- `commit(false)` with `bytesUncommitted >= IdealBatchSize`
+  | flush (writeOK : Bool)
+      -- `commit(false)` with `bytesUncommitted >= IdealBatchSize`: `sched.Commit(batch)` stages the membatch into the
+      -- batch and drops it; `writeOK` = whether `batch.Write()` succeeds
 deriving Repr, Inhabited
 
 inductive LoopOut where
@@ -35,20 +37,33 @@ def processBlobs (e : Env) : St → List Blob → St × Bool
     | (s', .processed _ _ (some .alreadyProcessed)) => processBlobs e s' t
     | (s', _) => (s', true)
 
-/-- the deferred `s.commit(true)` -/
+/-- the deferred `s.commit(true)` / a flush whose batch write succeeds -/
 def flushAll (s : St) : St := (commitTo s none).1
 
+/-- a flush whose batch write fails: `Sync.Commit` has already dropped the membatch, nothing reached the database.
+The loop aborts, the `Sync` object is abandoned; what survives is the database. -/
+def abandoned (s : St) : St := St.init s.db
+
+/-- what a loop that *tolerated* the failed write would continue with (seeded change C19-6): the staged entries are in
+neither the membatch nor the database, their requests are gone -/
+def lostFlush (s : St) : St := { s with membatch := [] }
+
 /-- `trieSync.loop`: `for s.sched.Pending() > 0 { … select … }; return nil`, every exit followed by the deferred commit -/
-def loopRun (e : Env) : St → List LoopEv → St × LoopOut
-  | s, [] => if s.pending = 0 then (flushAll s, .ok) else (s, .waiting)
+def loopExit (finalWriteOK : Bool) (s : St) (out : LoopOut) : St × LoopOut :=
+  if finalWriteOK then (flushAll s, out) else (abandoned s, .err)   -- `if err == nil { err = cerr }`
+
+/-- `finalWriteOK` = whether the batch write of the deferred forced commit succeeds -/
+def loopRun (e : Env) (finalWriteOK : Bool) : St → List LoopEv → St × LoopOut
+  | s, [] => if s.pending = 0 then loopExit finalWriteOK s .ok else (s, .waiting)
   | s, ev :: t =>
-    if s.pending = 0 then (flushAll s, .ok) else
+    if s.pending = 0 then loopExit finalWriteOK s .ok else
     match ev with
-    | .cancel => (flushAll s, .err)
-    | .wake => loopRun e s t
-    | .flush => loopRun e (flushAll s) t
+    | .cancel => loopExit finalWriteOK s .err
+    | .wake => loopRun e finalWriteOK s t
+    | .flush true => loopRun e finalWriteOK (flushAll s) t
+    | .flush false => (abandoned s, .err)        -- "DB write error": the sync aborts
     | .response blobs gaveUp =>
       let r := processBlobs e s blobs
-      if r.2 || gaveUp then (flushAll r.1, .err) else loopRun e r.1 t
+      if r.2 || gaveUp then loopExit finalWriteOK r.1 .err else loopRun e finalWriteOK r.1 t
 
 end YouVerif.C19
